@@ -270,7 +270,7 @@ func init() {
 			k.WCycleCloser = 1
 			return k
 		},
-		clauses: []string{COutsideClosure, CGroupForeign, CSoftLower, CSoftDup, CBadExec, CExecTwice},
+		clauses: []string{COutsideClosure, CGroupForeign, CGroupMultiset, CSoftLower, CSoftDup, CBadExec, CExecTwice},
 		nt: func(l map[string]bool) bool {
 			return l["soft-executed"] && (l["soft-before-feeding-sibling"] || l["soft-and-hard"])
 		},
